@@ -28,7 +28,7 @@ m = {
               "source_commits": [], "add_only": True},
     "engines": [{"name": "coq-proof+correspondence", "path": "/verif/check",
                  "serves_properties": sorted(claimed),
-                 "kind_free_text": "Coq 8.16.1 models and theorems (coq/), tied to /repo on every run by differential evaluation of the model inside coqc (vm_compute) against the implementation on generated cases, plus an implementation-level oracle for replays"}],
+                 "kind_free_text": "Coq 8.16.1 models and theorems (coq/), tied to /repo on every run (a) by fail-closed Python-ast -> Gallina translators that regenerate definitions from the current source, with machine-checked lemmas that the regenerated definitions equal the hand-written models the theorems are about (16 of the 20 properties), and (b) by differential evaluation of the models (and of the regenerated definitions) inside coqc (vm_compute) against the implementation on generated cases; plus an implementation-level oracle that evaluates the property statement directly, for replays"}],
     "checks": checks,
     "not_applicable": na,
     "notes": "See DESIGN.md. KNOWN_FINDINGS.json lists recorded defects and 'fixed:' entries.",
